@@ -185,6 +185,51 @@ def layout_models(ctx, b, label):
         c03.whole_file(ctx, b, label, wf)
     for mf in c03.MORE_FORMATS:
         c03.more_format(ctx, b, label, mf)
+    writer_only(ctx, b, label)
+
+
+def _g94pipe(manip, sort, x):
+    return sort.sort_basis(manip.uncontract_spdf(manip.uncontract_general(x, True), 1, False), False)
+
+
+WRITER_ONLY = {
+    # format: (the writer's own normalisation calls, model operation, its arguments from (b, normalised b))
+    'gaussian94lib': (_g94pipe, 'g94lib_write_all', lambda b, pb: [c03_els(pb), c03_ecps(pb)]),
+    'xtron': (_g94pipe, 'xtron_write_all', lambda b, pb: [c03_els(pb), c03_ecps(pb)]),
+    'psi4': (_g94pipe, 'psi4_write_all', lambda b, pb: [c03_els(pb), c03_ecps(pb)]),
+    'qchem': (_g94pipe, 'qchem_write_all', lambda b, pb: [b['role'], c03_els(pb), c03_ecps(pb)]),
+    'orca': (_g94pipe, 'orca_write_all', lambda b, pb: [c03_els(pb), c03_ecps(pb)]),
+    'gamess_uk': (_g94pipe, 'guk_write_all', lambda b, pb: [c03_els(pb), c03_ecps(pb)]),
+    'jaguar': (_g94pipe, 'jag_write_all', lambda b, pb: [pb['name'], pb['function_types'], c03_els(pb), c03_ecps(pb)]),
+    'pqs': (lambda manip, sort, x: sort.sort_basis(manip.make_general(x, True), False), 'pqs_write_all', lambda b, pb: [c03_els(pb), c03_ecps(pb)]),
+    'fhiaims': (lambda manip, sort, x: sort.sort_basis(manip.uncontract_spdf(manip.uncontract_general(x, True), 0, False), False),
+                'fhi_write_all', lambda b, pb: [b['name'], b['function_types'], c03_els(pb), c03_ecps(pb)]),
+    'bdf': (lambda manip, sort, x: sort.sort_basis(manip.make_general(x, False, True), False), 'bdf_write_all', lambda b, pb: [c03_els(pb), c03_ecps(pb)]),
+}
+
+
+def c03_els(pb):
+    from . import c03
+    return c03._els(pb)
+
+
+def c03_ecps(pb):
+    from . import c03
+    return c03._ecps(pb)
+
+
+def writer_only(ctx, b, label):
+    """the modelled writers that have no reader (coq/Model/G94Family.v, Qchem.v, ...): what the writer function returns must be
+    the text of the extracted model, byte for byte"""
+    from basis_set_exchange import writers, manip, sort
+    for fmt, (pipe, op, args) in WRITER_ONLY.items():
+        w = impl.call(writers.write._writer_map[fmt]['function'], copy.deepcopy(b))
+        pb = impl.call(lambda x: pipe(manip, sort, x), copy.deepcopy(b))
+        if w[0] != 'ok' or pb[0] != 'ok' or len(w[1]) > 200000:
+            ctx.dist['writer-only:%s:not-compared' % fmt] += 1
+            continue
+        ctx.case((label, fmt + '-writer'), True, fmt + '-writer')
+        ctx.compare(op, ('ok', w[1]), ctx.model.call(op, *args(b, pb[1])), {'kind': fmt + '-writer', 'label': label, 'input': b if len(str(b)) < 15000 else None})
 
 
 def work_layout_store(ctx, item):
